@@ -575,6 +575,36 @@ pub fn run(ctx: &Ctx) -> i32 {
                 history(which, &p, &mut rng, 40, &mg, &mut st, "corpus_game");
             }
         }
+        // slider-table sweep: every (square, rook|bishop, occupancy of the relevant ray squares) once
+        // (thorough: four times) inside a valid position — all ~108 000 entries a magic-bitboard
+        // engine answers slider questions from, not only the ones random play happens to reach
+        {
+            let n_entries = gen::slider_entry_count();
+            let (stride, variants) = match (which, ctx.quick()) {
+                (Which::C01, true) => (1u64, 2),
+                (Which::C01, false) => (1, 6),
+                (_, true) => (4, 2),
+                (_, false) => (1, 2),
+            };
+            let mut i = w as u64 * stride;
+            while i < n_entries && !ctx.past(0.5) {
+                let (sq, rook, subset) = gen::slider_entry(i);
+                for v in 0..variants {
+                    match gen::g_slider_entry(sq, rook, subset, v == 0, &mut rng) {
+                        Some(p) => {
+                            let b = eng::board_from_pos(&p);
+                            st.bump("slider_table_entries_visited");
+                            visit(which, &p, &b, &mg, &mut st, "slider_table_sweep");
+                        }
+                        None => st.bump("slider_table_entries_without_a_valid_arrangement"),
+                    }
+                }
+                i += ctx.workers as u64 * stride;
+            }
+            if i < n_entries {
+                st.bump("slider_table_sweep_cut_short_by_the_time_slice");
+            }
+        }
         while st.evals < per_worker && !ctx.past(if which == Which::C17 { 0.75 } else { 1.0 }) {
             match rng.below(100) {
                 0..=3 => {
@@ -682,9 +712,9 @@ fn spec(which: Which, replay: bool) -> Spec<'static> {
     match which {
         Which::C01 => Spec {
             level: "exploration",
-            rule: "cases are positions (corpus, random games from the start and from corpus positions played on one in-place engine board, synthetic valid positions, en-passant / castling / promotion / promotion-race studies); a case is distinct by (placement, side, rights, ep) and non-trivial when legality filtering or a special move matters in it: check, double check, refused pinned move, legal or refused ep, castling legal or refused, promotion, mate or stalemate. Sibling pass (every 16th position, and positions with promotion alternatives): on the same long-lived generator is_in_check(Si) is followed by the move list of the next sibling Sj for all successors of the position, each answer compared with the rules — the call order of a search, in which anything remembered from the previous call shows",
+            rule: "cases are positions (corpus, random games from the start and from corpus positions played on one in-place engine board, synthetic valid positions, en-passant / castling / promotion / promotion-race studies, and the slider-table sweep: for every square, rook and bishop geometry and every occupancy of the relevant ray squares valid positions with a slider on that square and exactly those ray squares occupied — one exposing arrangement (the mover's own rook or bishop, every blocker an enemy piece, mover not in check and slider not pinned, so that every square of the table entry, right or wrong, is a move or a capture) and one or more random ones (rook, bishop or queen of either side, blockers of both colours, kings among them)); a case is distinct by (placement, side, rights, ep) and non-trivial when legality filtering or a special move matters in it: check, double check, refused pinned move, legal or refused ep, castling legal or refused, promotion, mate or stalemate. Sibling pass (every 16th position, and positions with promotion alternatives): on the same long-lived generator is_in_check(Si) is followed by the move list of the next sibling Sj for all successors of the position, each answer compared with the rules — the call order of a search, in which anything remembered from the previous call shows",
             assumptions,
-            required: if replay { vec![] } else { vec!["ep_legal", "ep_refused_illegal", "castle_kingside_legal", "castle_queenside_legal", "castle_refused_attacked", "castle_queenside_with_b_file_attacked", "promotion", "promotion_capture", "double_check", "checkmate", "stalemate", "pinned_piece_move_refused", "sibling_call_pairs", "sibling_passes_with_promotion_alternatives"] },
+            required: if replay { vec![] } else { vec!["ep_legal", "ep_refused_illegal", "castle_kingside_legal", "castle_queenside_legal", "castle_refused_attacked", "castle_queenside_with_b_file_attacked", "promotion", "promotion_capture", "double_check", "checkmate", "stalemate", "pinned_piece_move_refused", "sibling_call_pairs", "sibling_passes_with_promotion_alternatives", "slider_table_entries_visited"] },
             exhaustive: false,
             extra: vec![],
         },
